@@ -351,3 +351,8 @@ def vary(run, rng):
         elif o['op'] == 'poisson':
             o['dseed'] = rng.randrange(1 << 30)
         ops.insert(rng.randint(k + 1, len(ops)), o)
+
+
+def shape(run):
+    return digest(sorted(set((o['op'], tuple(sorted(set(o.get('plan', [])))), isinstance(o.get('interval'), list))
+                             for o in run['ops'])))
